@@ -54,6 +54,8 @@ type HarnessResult struct {
 	Stubs        map[string]int
 	Queries      int
 	SolverTime   time.Duration
+	SlowQueries  int
+	MaxQuery     time.Duration
 	Wall         time.Duration
 	Samples      []PathSample
 	Validate     []PathSample // completed paths with models, to be validated against the native code
@@ -93,6 +95,24 @@ func (e *Engine) Explore(fn *ssa.Function, name string, workers, maxPaths int, d
 	x.violKey = map[string]int{}
 	x.stack = []workItem{{nil}}
 	t0 := time.Now()
+	done := make(chan struct{})
+	if os.Getenv("VERIF_PROGRESS") != "" {
+		go func() {
+			tk := time.NewTicker(10 * time.Second)
+			defer tk.Stop()
+			for {
+				select {
+				case <-done:
+					return
+				case <-tk.C:
+					x.mu.Lock()
+					fmt.Fprintf(os.Stderr, "[%s %.0fs] paths=%d stack=%d active=%d ends=%v viol=%d\n", name, time.Since(t0).Seconds(), x.res.Paths, len(x.stack), x.active, x.res.EndKinds, len(x.res.Violations))
+					x.mu.Unlock()
+				}
+			}
+		}()
+	}
+	defer close(done)
 	var wg sync.WaitGroup
 	for i := 0; i < workers; i++ {
 		wg.Add(1)
@@ -131,6 +151,10 @@ func (x *Explorer) worker(id int) {
 		x.mu.Lock()
 		x.res.Queries += sol.Queries
 		x.res.SolverTime += sol.Time
+		x.res.SlowQueries += sol.Slow
+		if sol.MaxTime > x.res.MaxQuery {
+			x.res.MaxQuery = sol.MaxTime
+		}
 		x.mu.Unlock()
 		sol.Close()
 	}()
